@@ -34,6 +34,10 @@ func injectFailures(r *rng.R, s *spec.Spec, e *Env) map[string]string {
 				kinds[t.Label()] = "exit-nonzero"
 			} else {
 				t.OmitIf = "markers/omit_" + t.Name
+				if outs := t.AllOuts(); len(outs) >= 2 && r.Chance(1, 2) {
+					// only one of the declared outputs goes missing
+					t.Omit = outs[r.Intn(len(outs))].Path
+				}
 				kinds[t.Label()] = "missing-declared-output"
 			}
 		case 2:
@@ -46,6 +50,12 @@ func injectFailures(r *rng.R, s *spec.Spec, e *Env) map[string]string {
 		default:
 			t.FailIf = "markers/fail_" + t.Name
 			kinds[t.Label()] = "exit-nonzero"
+		}
+	}
+	// generous timeouts on healthy targets: the attribute must not change when they may start
+	for _, t := range s.Targets {
+		if kinds[t.Label()] == "" && r.Chance(1, 2) {
+			t.Timeout = "45s"
 		}
 	}
 	return kinds
